@@ -49,7 +49,7 @@ def _shifted_sum(src, shifts_and_weights, keys=None):
     return out
 
 
-def h_conservation(ctx, skeleton, n, sym_durations, dmax_h=2, rmax_h=3, args=None, placement=True, negative=()):
+def h_conservation(ctx, skeleton, n, sym_durations, dmax_h=2, rmax_h=3, args=None, placement=True, negative=(), units=None, values=None):
     """negative: jobs whose data_stored is negative (they delete data): the totals are conserved with their sign"""
     spec = M.SKELETONS[skeleton](n, **(args or {}))
     gt = gt_sets(spec)
@@ -66,7 +66,9 @@ def h_conservation(ctx, skeleton, n, sym_durations, dmax_h=2, rmax_h=3, args=Non
         sym[f"{j}.ram_needed"] = dict(lo=0, hi=10 ** 5, nice=(1, 900))
     for d in gt["devices"]:
         sym[f"{d}.power"] = dict(lo=0, hi=1000, nice=(1, 100))
-    env = M.Env(ctx, symbolic=sym)
+    # units / values: some inputs written in another unit, concrete overrides (jobs of one server whose needs are written
+    # in different units and whose series cover different hours)
+    env = M.Env(ctx, symbolic={k: v for k, v in sym.items() if k not in (values or {})}, values=dict(values or {}), units=dict(units or {}))
     objs = M.build(spec, env)
     V.observe_system(ctx, objs)
 
@@ -165,6 +167,8 @@ def plan(tier, seed):
          ("conservation", dict(skeleton="T4", n=2, sym_durations=["steps"], dmax_h=2)),
          ("conservation", dict(skeleton="T3", n=2, sym_durations=["request"], rmax_h=2)),
          ("conservation", dict(skeleton="T2", n=2, sym_durations=["steps"], dmax_h=3)),
+         ("conservation", dict(skeleton="T4", n=2, sym_durations=[], units={"jobB.ram_needed": "GB", "jobB.data_transferred": "GB"},
+                               values={"step1.user_time_spent": 70, "jobB.request_duration": 4000})),
          ("conservation", dict(skeleton="T7", n=2, sym_durations=[], negative=["jobdel"])),
          ("conservation", dict(skeleton="T4", n=2, sym_durations=[], negative=["jobB"])),
          ("conservation", dict(skeleton="TX", n=2, sym_durations=[], dmax_h=2)),
